@@ -14,14 +14,20 @@ pub struct CopyToFileExecutor {
 }
 
 impl CopyToFileExecutor {
+    #[cfg(test)]
+    pub fn execute(self, child: BoxedExecutor) -> BoxedExecutor {
+        self.execute_with_names(child, vec![])
+    }
+
+    /// `column_names` is the record written first when the `HEADER` option is set.
     #[try_stream(boxed, ok = DataChunk, error = ExecutorError)]
-    pub async fn execute(self, child: BoxedExecutor) {
+    pub async fn execute_with_names(self, child: BoxedExecutor, column_names: Vec<String>) {
         let (sender, recver) = mpsc::channel(1);
         // # Cancellation
         // When this stream is dropped, the `sender` is dropped, the `recver` will return
         // `None` in the spawned task, then the task will finish.
         let writer = tokio::task::spawn_blocking(move || {
-            Self::write_file_blocking(self.source.path, self.source.format, recver)
+            Self::write_file_blocking(self.source.path, self.source.format, column_names, recver)
         });
         #[for_await]
         for batch in child {
@@ -39,6 +45,7 @@ impl CopyToFileExecutor {
     fn write_file_blocking(
         path: PathBuf,
         format: FileFormat,
+        column_names: Vec<String>,
         mut recver: mpsc::Receiver<DataChunk>,
     ) -> Result<usize> {
         let file = File::create(path)?;
@@ -55,6 +62,10 @@ impl CopyToFileExecutor {
                 .has_headers(header)
                 .from_writer(file),
         };
+        // `has_headers` only concerns serde serialization: the header record is written here.
+        if matches!(format, FileFormat::Csv { header: true, .. }) {
+            writer.write_record(&column_names)?;
+        }
 
         let mut rows = 0;
 
